@@ -74,9 +74,8 @@ K ELT* k_subspan_st(ELT* p, sz off, sz ci, sz* osz, sz* oext)
         return r;
     }(etl::make_index_sequence<(LEN + 1) * (LEN + 2)>{});
 }
-// object representation views. For a static-extent span etl::as_bytes / as_writable_bytes do not compile on the pinned tree
-// (span.hpp:358/373 copy-list-initialise a span whose (ptr,count) constructor is explicit); reported as a defect, exercised for dynamic extent only
-#if !STATIC_EXT || defined(C19_AS_BYTES_STATIC_FIXED)
+// object representation views
+#if 1   // (static-extent as_bytes compiles since d8762ce)
 K void const* k_as_bytes(ELT* p, sz* osz, sz* oext) { auto r = etl::as_bytes(mk(p)); *osz = r.size(); *oext = decltype(r)::extent; return r.data(); }
 K void* k_as_wbytes(ELT* p, sz* osz, sz* oext) { auto r = etl::as_writable_bytes(mk(p)); *osz = r.size(); *oext = decltype(r)::extent; return r.data(); }
 #endif
